@@ -2269,7 +2269,12 @@ def older_types_history(rng, v_old: str, cross: bool, avoid_hb: bool, length: in
         elif r < 0.8:
             t = rng.choice(internal)
             payload = {0: rng.choice(["50", "abc", "150"]), 22: rng.choice(["5", "x"]), 3: ""}.get(t, "1")
-            line = f"{rng.choice((n, 255)) if t == 3 else n};{rng.choice((255, 4)) if t == 3 else 255};3;{ack()};{t};{payload}"
+            sender = n
+            if cross and t != id_request and to["internal"][str(t)] not in C19_NODE_REPORTS and rng.random() < 0.25:
+                # requests to the controller, log messages ...: they name no registry entry, whoever sends them - the
+                # gateway itself (node 0), a node that is not registered
+                sender = rng.choice((0, 0, 9, 77))
+            line = f"{rng.choice((n, 255)) if t == 3 else sender};{rng.choice((255, 4)) if t == 3 else 255};3;{ack()};{t};{payload}"
             if t == id_request:
                 handed_out()
         elif r < 0.86:
@@ -2329,6 +2334,11 @@ def _c19_internal_no(version: str, name: str):
     return next((int(t) for t, nm in proto_tables(version)["internal"].items() if nm == name), None)
 
 
+# internal message types whose content is kept on the registry entry of the node that sent them
+C19_NODE_REPORTS = ("I_BATTERY_LEVEL", "I_SKETCH_NAME", "I_SKETCH_VERSION", "I_HEARTBEAT_RESPONSE", "I_DISCOVER_RESPONSE",
+                    "I_PRE_SLEEP_NOTIFICATION", "I_POST_SLEEP_NOTIFICATION")
+
+
 def _c19_out_of_scope(a: str, op, registry: dict):
     """Is this operation outside the cross-line (1.x -> 2.x) part of the property - 'as long as no unknown node or
     child is referenced and no gateway-ready message occurs' - in the state whose REAL registry (`snapshot_nodes` of
@@ -2336,8 +2346,12 @@ def _c19_out_of_scope(a: str, op, registry: dict):
 
     Decided from what the message names and from registry membership only - never from the error a handler raised:
       * a line the codec does not decode is no message and names nothing;
-      * a node presentation (system child) and an id request name no existing node: they create one;
-      * every other message names its sender node, and a set / req message also its child;
+      * a node presentation (system child) names no existing node: it creates one;
+      * a child presentation and a stream message name their sender node; a set / req message names its sender node
+        and its child;
+      * an internal message names its sender node when its type is a report that is kept on the node's registry entry
+        (`C19_NODE_REPORTS`: battery level, sketch name / version, heartbeat / discover response, sleep notifications);
+        requests to the controller (id, config, time ...), log messages and the like name no registry entry;
       * a send call of a set / req names the node and the child it is addressed to; other send calls name the node.
     The node, resp. the child, must be a key of the registry, resp. of that node's `children`."""
     if op[0] == "recv":
@@ -2345,11 +2359,13 @@ def _c19_out_of_scope(a: str, op, registry: dict):
         if m is None:
             return None
         node, child, cmd, typ = m.node_id, m.child_id, int(m.command), m.message_type
-        if cmd == 3 and typ == _c19_internal_no(a, "I_GATEWAY_READY"):
-            return "gateway-ready"
+        if cmd == 3:
+            name = proto_tables(a)["internal"].get(str(typ))
+            if name == "I_GATEWAY_READY":
+                return "gateway-ready"
+            if name not in C19_NODE_REPORTS:
+                return None
         if cmd == 0 and child == 255:
-            return None
-        if cmd == 3 and typ == _c19_internal_no(a, "I_ID_REQUEST"):
             return None
     elif op[0] == "send":
         if op[1] is None:
@@ -2832,6 +2848,17 @@ def run_c19(ctx) -> Corr:
             for v in (a, bver):
                 hists.append(Hist(v, base.metric, base.preload, base.ops))
             meta.append((a, bver, cross))
+        # codec level, systematically: every internal type of the older protocol on a child id other than the system
+        # child (accepted for id request / response only), from the gateway's own id and from a registered node -
+        # every version must judge these lines alike
+        sweep = Hist(None, True, [("node", 1, 17, "2.0", "", "", 0, 0, False, False)], [])
+        for t in sorted(int(x) for x in proto_tables(a)["internal"]):
+            if t != 2:
+                for sender, child in ((0, 0), (1, 0), (1, 7)):
+                    sweep.ops.append(("recv", f"{sender};{child};3;0;{t};x", (), gw.DEFAULT_TIME))
+        for v in (a, bver):
+            hists.append(Hist(v, sweep.metric, sweep.preload, sweep.ops))
+        meta.append((a, bver, cross))
     impl = run_both(hists, corr, ctx, "full", "full view")
     shrunk = placeholder_steps = 0
     for j, (a, bver, cross) in enumerate(meta):
